@@ -72,6 +72,16 @@ def errName : RefErr → String
 def handle (j : Json) : Json := run do
   let out := fun (d : DF) => Json.mkObj [("names", toJson d.names),
     ("rows", Json.arr (d.rows.map fun r => Json.arr (r.map svTo).toArray).toArray), ("consistent", decide d.Consistent)]
+  if let .ok (.arr rs) := j.getObjVal? "fromRows" then
+    -- createDataFrame over Row objects: every row is an array of [name, value] pairs in the Row's own field order
+    let rows ← rs.toList.mapM fun r => do
+      match r with
+      | .arr kvs => kvs.toList.mapM fun kv => do
+          match kv with
+          | .arr #[.str n, v] => return (n, ← svOf v)
+          | _ => throw "fromRows: [name, value] expected"
+      | _ => throw "fromRows: row"
+    return out (createFromRows rows)
   match j.getObjVal? "range" with
   | .ok r =>
     let a ← (fromJson? r : Except String (Array Int))
